@@ -3,14 +3,19 @@
 
    Two stacks, one cursor.  The application sees a flat Cursor (CursorOps) over
         Body == Take(Sent, CL)
-   where Sent is what the server really has.  Behind the cursor sits the accounting the
-   streams need because they cannot see Body, only a server interface:
+   where Sent is what the server really has and CL is what a valid, non-negative reading of the
+   Content-Length header allows (0 for a header no such reading exists for).  Behind the cursor
+   sits the accounting the streams need because they cannot see Body, only a server interface:
      WSGI  a raw file-like object that happily hands out foreign bytes after the body
            (`wire`); the stream keeps a `budget` of bytes it may still take and asks the raw
            object for sizes (`reach` = furthest byte offset any ask could have touched);
      ASGI  a receive() callable producing events (chunks with or without `body` /
            `more_body` keys, empty chunks, chunks running past Content-Length, a disconnect);
            the stream keeps a `budget`, a look-ahead buffer `buf` and counts events (`recv`).
+           Async iteration is stepwise (AIterNext hands out one chunk and suspends; what the
+           generator does only when it is resumed is the pending state `pterm` / `pacc`);
+           AIterBreak abandons a suspended iterator: from then on (`ab`) the documentation
+           promises nothing but the byte bounds.
    One action per public call.  The invariants at the bottom are the property.  The BOOLEAN
    constants are the wrong-design switches used for the vacuity runs: with all of
    them at their good value the invariants hold, flipping any one breaks a named invariant. *)
@@ -18,21 +23,25 @@ EXTENDS BodyStreamOps, TLC
 
 CONSTANTS Datas,              \* WSGI: byte strings the server may hold
           Scripts,            \* ASGI: event sequences the server may deliver (each has a terminal event)
-          CLs,                \* Content-Length values, NIL = header absent
-          Sizes,              \* size arguments offered to the sized operations (-1 = None)
+          CLs,                \* Content-Length headers [k: "absent" | "valid" | "lenient" | "unusable", v: the number read]
+          Sizes,              \* size arguments offered to the sized operations (negative = None)
           ShortReads,         \* WSGI: the raw object may answer read(k) with 1..k bytes
           ChargeByRequested,  \* wrong design: budget is charged by the size asked, not by the bytes returned
           BoundLineOps,       \* good design: readlines / iteration go through the bounded readline
           TruncateChunks,     \* good design: a chunk running past the budget is cut
           CountTruncated,     \* good design: the bytes kept of a cut chunk count as available
           HonourDisconnect,   \* good design: http.disconnect ends the stream
-          TellFromZero        \* good design: the position indicator starts at 0, whatever was pre-loaded
+          TellFromZero,       \* good design: the position indicator starts at 0, whatever was pre-loaded
+          RejectNegativeCL,   \* good design: a negative Content-Length never becomes the budget
+          AccountBeforeYield, \* good design: an iterated chunk is accounted for before it is handed out
+          ExhaustToTheEnd     \* good design: exhaust() reads until nothing comes, not until a short chunk
 
 (* ------------------------------------------------------------------------------------------
    State
    ------------------------------------------------------------------------------------------ *)
 VARIABLES iface,    \* "wsgi" | "asgi"
-          cl,       \* Content-Length or NIL
+          clh,      \* the Content-Length header as sent
+          cl,       \* what a valid reading of it allows: NIL (absent, ASGI), or n >= 0
           sent,     \* WSGI: bytes the server holds (ASGI: <<>>)
           evs,      \* ASGI: the event script (WSGI: <<>>)
           first,    \* ASGI: the first event was pre-loaded by the framework (first_event=)
@@ -47,10 +56,15 @@ VARIABLES iface,    \* "wsgi" | "asgi"
           ret,      \* ghost: number of bytes returned to the application
           told,     \* ASGI: the position indicator the stream maintains (tell())
           closed, exh, blocked,
+          it,       \* ASGI: an iterator is suspended at a yield
+          ab,       \* ASGI: a suspended iterator was abandoned (break)
+          pterm,    \* ASGI: the event whose chunk was just yielded was the last one; noticed on resumption
+          pacc,     \* ASGI, wrong design only: bytes yielded but not yet accounted for
           last      \* the last call and what it reported
 
-vars == <<iface, cl, sent, evs, first, body, endIdx, budget, buf, recv, rawPos, reach, out, ret, told, closed, exh, blocked, last>>
-conf == <<iface, cl, sent, evs, first, body, endIdx>>
+vars == <<iface, clh, cl, sent, evs, first, body, endIdx, budget, buf, recv, rawPos, reach, out, ret, told, closed, exh,
+          blocked, it, ab, pterm, pacc, last>>
+conf == <<iface, clh, cl, sent, evs, first, body, endIdx>>
 
 Body == body
 wire == Wire(sent, cl)
@@ -64,6 +78,7 @@ Rec(op, n, res, lines, stop, err, eof, tell, rc) ==
    ASGI mechanism: one receive step, and the loop every reading call runs
    ------------------------------------------------------------------------------------------ *)
 St(b, bud, rc, av, blk) == [buf |-> b, budget |-> bud, recv |-> rc, avail |-> av, blocked |-> blk]
+Ends(e) == ~(More(e) \/ (IsDisc(e) /\ ~HonourDisconnect))            \* nothing may be expected after e
 
 Step(s) ==
     LET e     == evs[s.recv + 1]
@@ -72,8 +87,7 @@ Step(s) ==
         kept  == IF over /\ TruncateChunks THEN Take(chunk, s.budget) ELSE chunk
         b1    == IF over THEN 0 ELSE s.budget - Len(chunk)
         a1    == s.avail + (IF over /\ ~CountTruncated THEN 0 ELSE Len(kept))
-        b2    == IF More(e) \/ (IsDisc(e) /\ ~HonourDisconnect) THEN b1 ELSE 0
-    IN  St(s.buf \o kept, b2, s.recv + 1, a1, FALSE)
+    IN  St(s.buf \o kept, IF Ends(e) THEN 0 ELSE b1, s.recv + 1, a1, FALSE)
 
 RECURSIVE Fill(_, _)
 Fill(s, need) ==                      \* receive until the budget is used up or `need` bytes are buffered
@@ -81,116 +95,171 @@ Fill(s, need) ==                      \* receive until the budget is used up or 
     ELSE IF s.recv >= Len(evs) THEN [s EXCEPT !.blocked = TRUE]     \* receive() would never return
     ELSE Fill(Step(s), need)
 
-Set(b, bud, rc, rp, rch, o, rt, cls, ex, blk, lst) ==
+(* the iterator's loop: receive until an event brings a chunk (which is yielded before the event's
+   more_body flag is looked at) or the body ends.  Result: [chunk, budget, recv, pterm, blocked] *)
+RECURSIVE Pull(_, _)
+Pull(bud, rc) ==
+    IF bud <= 0 THEN [chunk |-> <<>>, budget |-> bud, recv |-> rc, pterm |-> FALSE, blocked |-> FALSE]
+    ELSE IF rc >= Len(evs) THEN [chunk |-> <<>>, budget |-> bud, recv |-> rc, pterm |-> FALSE, blocked |-> TRUE]
+    ELSE LET e     == evs[rc + 1]
+             chunk == EvBody(e)
+             over  == Len(chunk) > bud
+             kept  == IF over /\ TruncateChunks THEN Take(chunk, bud) ELSE chunk
+             b1    == IF over THEN 0 ELSE bud - Len(chunk)
+         IN  IF kept # <<>> THEN [chunk |-> kept, budget |-> b1, recv |-> rc + 1, pterm |-> Ends(e), blocked |-> FALSE]
+             ELSE Pull(IF Ends(e) THEN 0 ELSE b1, rc + 1)
+
+Set(b, bud, rc, rp, rch, o, rt, tl, cls, ex, blk, lst) ==
     /\ buf' = b /\ budget' = bud /\ recv' = rc /\ rawPos' = rp /\ reach' = rch /\ out' = o /\ ret' = rt
-    /\ told' = (IF iface = "asgi" THEN told + (rt - ret) ELSE told)
-    /\ closed' = cls /\ exh' = ex /\ blocked' = blk /\ last' = lst
+    /\ told' = tl /\ closed' = cls /\ exh' = ex /\ blocked' = blk /\ last' = lst
     /\ UNCHANGED conf
+NoIter == UNCHANGED <<it, ab, pterm, pacc>>
 
 Refuse(op, n) ==                      \* a closed ASGI stream refuses every operation
-    Set(buf, budget, recv, rawPos, reach, out, ret, closed, exh, blocked,
+    Set(buf, budget, recv, rawPos, reach, out, ret, told, closed, exh, blocked,
         Rec(op, n, <<>>, <<>>, FALSE, "closed", EofOf(buf, budget), told, recv))
 
 ATake(op, n, s, k) ==                 \* hand out the first k buffered bytes of the state s the loop ended in
     LET data == Take(s.buf, k)
         rest == Drop(s.buf, k)
-    IN  Set(rest, s.budget, s.recv, rawPos, reach, out \o data, ret + Len(data), closed, exh, s.blocked,
-            Rec(op, n, data, <<>>, FALSE, "", EofOf(rest, s.budget), told + Len(data), s.recv))
+    IN  Set(rest, s.budget, s.recv, rawPos, reach, out \o data, ret + Len(data), told + Len(data), closed, exh,
+            s.blocked, Rec(op, n, data, <<>>, FALSE, "", EofOf(rest, s.budget), told + Len(data), s.recv))
 
-S0 == St(buf, budget, recv, Len(buf), FALSE)
+S0   == St(buf, budget, recv, Len(buf), FALSE)
+ACan == iface = "asgi" /\ ~it /\ ~blocked      \* while an iterator is suspended the documentation allows nothing else
 
 AReadAllAs(op, n) ==
     IF closed THEN Refuse(op, n)
     ELSE LET s == Fill(S0, BIG) IN ATake(op, n, s, Len(s.buf))
 
-ARead(n) ==
-    /\ iface = "asgi"
+ARead(n) ==                           \* None / -1: everything; other negative sizes and 0: nothing
+    /\ ACan /\ NoIter
     /\ IF closed THEN Refuse("read", n)
-       ELSE IF Eof \/ n = 0 THEN ATake("read", n, S0, 0)
-       ELSE IF n < 0 THEN AReadAllAs("read", n)
+       ELSE IF Eof \/ n = 0 \/ n < -1 THEN ATake("read", n, S0, 0)
+       ELSE IF n = -1 THEN AReadAllAs("read", n)
        ELSE LET s == Fill(S0, n)
             IN  ATake("read", n, s, IF s.avail <= n THEN Len(s.buf) ELSE n)
-AReadAll == iface = "asgi" /\ AReadAllAs("readall", -1)
-AIter    == iface = "asgi" /\ AReadAllAs("iter", -1)         \* a complete `async for`; res is the concatenation
+AReadAll == ACan /\ NoIter /\ AReadAllAs("readall", -1)
+AIter    == ACan /\ ~ab /\ NoIter /\ AReadAllAs("iter", -1)     \* a complete `async for`; res is the concatenation
 AExhaust ==
-    /\ iface = "asgi"
+    /\ ACan /\ NoIter
     /\ IF closed THEN Refuse("exhaust", -1)
        ELSE LET s == Fill(St(<<>>, budget, recv, 0, FALSE), BIG)
-            IN  Set(<<>>, 0, s.recv, rawPos, reach, out \o buf \o s.buf, ret, closed, TRUE, s.blocked,
+            IN  Set(<<>>, 0, s.recv, rawPos, reach, out \o buf \o s.buf, ret, told, closed, TRUE, s.blocked,
                     Rec("exhaust", -1, <<>>, <<>>, FALSE, "", 1, told, s.recv))
 AClose ==
-    /\ iface = "asgi"
-    /\ Set(<<>>, 0, recv, rawPos, reach, out, ret, TRUE, exh, blocked,
+    /\ ACan /\ NoIter
+    /\ Set(<<>>, 0, recv, rawPos, reach, out, ret, told, TRUE, exh, blocked,
            Rec("close", -1, <<>>, <<>>, FALSE, "", 1, told, recv))
+
+(* one step of `async for`: start or resume the generator, run it to its next yield (or to its end) *)
+Yield(chunk, bud, rc, pt, acc) ==     \* bud: the budget with the chunk already deducted; acc: accounted for before the yield
+    LET nb  == IF acc THEN bud ELSE bud + Len(chunk)
+        nt  == IF acc THEN told + pacc + Len(chunk) ELSE told + pacc
+    IN  /\ Set(<<>>, nb, rc, rawPos, reach, out \o chunk, ret + Len(chunk), nt, closed, exh, FALSE,
+               Rec("iternext", -1, chunk, <<>>, FALSE, "", EofOf(<<>>, nb), nt, rc))
+        /\ it' = TRUE /\ pterm' = pt /\ pacc' = (IF acc THEN 0 ELSE Len(chunk)) /\ UNCHANGED ab
+Finish(bud, rc, blk) ==
+    /\ Set(<<>>, bud, rc, rawPos, reach, out, ret, told + pacc, closed, exh, blk,
+           Rec("iternext", -1, <<>>, <<>>, TRUE, "", EofOf(<<>>, bud), told + pacc, rc))
+    /\ it' = FALSE /\ pterm' = FALSE /\ pacc' = 0 /\ UNCHANGED ab
+AIterNext ==
+    /\ iface = "asgi" /\ ~ab /\ ~blocked
+    /\ IF ~it /\ closed THEN Refuse("iternext", -1) /\ NoIter
+       ELSE IF ~it /\ Eof THEN Finish(budget, recv, FALSE)
+       ELSE IF ~it /\ buf # <<>> THEN Yield(buf, budget, recv, FALSE, TRUE)
+       ELSE LET b0 == IF pterm THEN 0 ELSE budget - pacc
+                p  == Pull(b0, recv)
+            IN  IF p.chunk # <<>> THEN Yield(p.chunk, p.budget, p.recv, p.pterm, AccountBeforeYield)
+                ELSE Finish(p.budget, p.recv, p.blocked)
+AIterBreak ==                         \* leave the loop: the generator never gets to run again
+    /\ iface = "asgi" /\ it
+    /\ it' = FALSE /\ ab' = TRUE /\ pterm' = FALSE /\ pacc' = 0
+    /\ Set(buf, budget, recv, rawPos, reach, out, ret, told, closed, exh, blocked,
+           Rec("iterbreak", -1, <<>>, <<>>, FALSE, "", EofOf(buf, budget), told, recv))
 
 (* ------------------------------------------------------------------------------------------
    WSGI mechanism
    ------------------------------------------------------------------------------------------ *)
-WReq(n)      == IF n < 0 \/ n > budget THEN budget ELSE n          \* the size after fix-up
-RawLens(k)   == LET a == Min(k, Len(wire) - rawPos) IN IF ShortReads /\ a > 1 THEN 1..a ELSE {a}
-Charge(k, j) == IF ChargeByRequested THEN k ELSE j
-Seen         == Take(wire, rawPos + budget)                        \* what bounded asks can ever touch
+NOASK        == 0 - BIG
+WReq(n)      == IF n < 0 \/ n > budget THEN budget ELSE n          \* the size after fix-up (any negative size: all)
+RawAvail(k)  == IF k < 0 THEN Len(wire) - rawPos ELSE Min(k, Len(wire) - rawPos)
+RawLens(k)   == LET a == RawAvail(k) IN IF ShortReads /\ a > 1 THEN 1..a ELSE {a}
+Seen         == Take(wire, rawPos + Max(budget, 0))                \* what bounded asks can ever touch
+(* the budget after an ask for k bytes answered with j: nothing for a positive size is the early end of the wire *)
+After(k, j)  == IF ChargeByRequested THEN budget - k ELSE IF j = 0 /\ k > 0 THEN 0 ELSE budget - j
 
-WApply(op, n, r, lines, stop, asked, charge, returned) ==
-    LET nb == budget - charge
-    IN  Set(<<>>, nb, 0, rawPos + Len(r),
-            IF asked < 0 THEN reach ELSE IF asked >= BIG THEN BIG ELSE Max(reach, rawPos + asked),
-            out \o r, IF returned THEN ret + Len(r) ELSE ret, closed, exh \/ ~returned, FALSE,
-            Rec(op, n, IF returned THEN r ELSE <<>>, lines, stop, "", EofOf(<<>>, nb), -1, 0))
+WApply(op, n, r, lines, stop, asked, nb, returned) ==
+    /\ Set(<<>>, nb, 0, rawPos + Len(r),
+           IF asked = NOASK THEN reach ELSE IF asked < 0 \/ asked >= BIG THEN BIG ELSE Max(reach, rawPos + asked),
+           out \o r, IF returned THEN ret + Len(r) ELSE ret, told, closed, exh \/ ~returned, FALSE,
+           Rec(op, n, IF returned THEN r ELSE <<>>, lines, stop, "", EofOf(<<>>, nb), -1, 0))
+    /\ NoIter
 
 WRead(n) ==
     /\ iface = "wsgi"
     /\ LET k == WReq(n) IN \E j \in RawLens(k) :
-           WApply("read", n, Slice(wire, rawPos, rawPos + j), <<>>, FALSE, k, Charge(k, j), TRUE)
+           WApply("read", n, Slice(wire, rawPos, rawPos + j), <<>>, FALSE, k, After(k, j), TRUE)
 WReadLine(n) ==
     /\ iface = "wsgi"
     /\ LET k == WReq(n)
            r == ExpReadLine(wire, rawPos, k)
-       IN  WApply("readline", n, r, <<>>, FALSE, k, Charge(k, Len(r)), TRUE)
+       IN  WApply("readline", n, r, <<>>, FALSE, k, After(k, Len(r)), TRUE)
+(* the line loops end with an empty readline() unless a hint stopped them; After() applies to that last call too *)
+AfterLines(total, byHint) ==
+    LET left == budget - total IN IF byHint \/ left <= 0 THEN left ELSE 0
 WReadLines(h) ==
     /\ iface = "wsgi"
     /\ IF BoundLineOps
          THEN LET ls == ExpReadLines(Seen, rawPos, h)
-              IN  WApply("readlines", h, Concat(ls), ls, FALSE, budget, Len(Concat(ls)), TRUE)
+                  t  == Len(Concat(ls))
+              IN  WApply("readlines", h, Concat(ls), ls, FALSE, budget,
+                         AfterLines(t, Hint(h) >= 0 /\ t > 0 /\ t >= Hint(h)), TRUE)
          ELSE LET k  == WReq(h)                                    \* the raw readlines(hint) has no byte bound
                   ls == ExpReadLines(wire, rawPos, k)
-              IN  WApply("readlines", h, Concat(ls), ls, FALSE, BIG, Charge(k, Len(Concat(ls))), TRUE)
+              IN  WApply("readlines", h, Concat(ls), ls, FALSE, BIG, After(k, Len(Concat(ls))), TRUE)
 WNext ==
     /\ iface = "wsgi"
     /\ IF BoundLineOps
-         THEN LET r == ExpReadLine(Seen, rawPos, -1) IN WApply("next", -1, r, <<>>, r = <<>>, budget, Len(r), TRUE)
-         ELSE LET r == ExpReadLine(wire, rawPos, -1) IN WApply("next", -1, r, <<>>, r = <<>>, BIG, 0, TRUE)
+         THEN LET r == ExpReadLine(Seen, rawPos, -1) IN WApply("next", -1, r, <<>>, r = <<>>, budget, After(budget, Len(r)), TRUE)
+         ELSE LET r == ExpReadLine(wire, rawPos, -1) IN WApply("next", -1, r, <<>>, r = <<>>, BIG, budget, TRUE)
 WIterAll ==                                                        \* list(stream)
     /\ iface = "wsgi"
     /\ IF BoundLineOps
          THEN LET ls == ExpReadLines(Seen, rawPos, -1)
-              IN  WApply("iterall", -1, Concat(ls), ls, FALSE, budget, Len(Concat(ls)), TRUE)
+              IN  WApply("iterall", -1, Concat(ls), ls, FALSE, budget, AfterLines(Len(Concat(ls)), FALSE), TRUE)
          ELSE LET ls == ExpReadLines(wire, rawPos, -1)
-              IN  WApply("iterall", -1, Concat(ls), ls, FALSE, BIG, 0, TRUE)
+              IN  WApply("iterall", -1, Concat(ls), ls, FALSE, BIG, budget, TRUE)
 WExhaust ==
     /\ iface = "wsgi"
-    /\ IF ChargeByRequested
-         THEN \E j \in RawLens(budget) :                           \* the first read is charged in full, the next asks for 0
-                  WApply("exhaust", -1, Slice(wire, rawPos, rawPos + j), <<>>, FALSE, budget, budget, FALSE)
-         ELSE LET j == Min(budget, Len(wire) - rawPos)
-              IN  WApply("exhaust", -1, Slice(wire, rawPos, rawPos + j), <<>>, FALSE, budget, j, FALSE)
+    /\ IF ChargeByRequested \/ ~ExhaustToTheEnd
+         THEN \E j \in RawLens(budget) :                           \* one (possibly short) chunk and the loop is left
+                  WApply("exhaust", -1, Slice(wire, rawPos, rawPos + j), <<>>, FALSE, budget,
+                         IF ChargeByRequested THEN 0 ELSE After(budget, j), FALSE)
+         ELSE LET j == RawAvail(budget)                            \* chunk after chunk until nothing comes
+              IN  WApply("exhaust", -1, Slice(wire, rawPos, rawPos + j), <<>>, FALSE, budget, Min(budget, 0), FALSE)
 WClose ==                                                          \* io.IOBase.close(): a flag, nothing else
-    /\ iface = "wsgi"
-    /\ Set(buf, budget, recv, rawPos, reach, out, ret, TRUE, exh, blocked,
+    /\ iface = "wsgi" /\ NoIter
+    /\ Set(buf, budget, recv, rawPos, reach, out, ret, told, TRUE, exh, blocked,
            Rec("close", -1, <<>>, <<>>, FALSE, "", EofOf(<<>>, budget), -1, 0))
 
 (* ------------------------------------------------------------------------------------------ *)
 Blank == Rec("init", 0, <<>>, <<>>, FALSE, "", 0, 0, 0)
+Usable(h) == h.k \in {"valid", "lenient"}                          \* a non-negative number can be read from it
 
 InitWsgi ==
-    /\ iface = "wsgi" /\ sent \in Datas /\ cl \in CLs /\ evs = <<>> /\ first = FALSE
+    /\ iface = "wsgi" /\ sent \in Datas /\ clh \in CLs /\ evs = <<>> /\ first = FALSE
+    /\ cl = (IF Usable(clh) THEN clh.v ELSE 0)                     \* absent / unusable: no body
     /\ body = WBody(sent, cl) /\ endIdx = 0
-    /\ budget = WCL(cl) /\ buf = <<>> /\ recv = 0 /\ rawPos = 0 /\ reach = 0
+    /\ budget = (IF clh.k = "unusable" /\ ~RejectNegativeCL THEN clh.v ELSE cl)
+    /\ buf = <<>> /\ recv = 0 /\ rawPos = 0 /\ reach = 0
     /\ out = <<>> /\ ret = 0 /\ told = 0 /\ closed = FALSE /\ exh = FALSE /\ blocked = FALSE
-    /\ last = [Blank EXCEPT !.eof = EofOf(<<>>, WCL(cl)), !.tell = -1]
+    /\ it = FALSE /\ ab = FALSE /\ pterm = FALSE /\ pacc = 0
+    /\ last = [Blank EXCEPT !.eof = EofOf(<<>>, budget), !.tell = -1]
 
-InitAsgi ==
-    /\ iface = "asgi" /\ evs \in Scripts /\ cl \in CLs /\ sent = <<>> /\ first \in BOOLEAN
+InitAsgi ==                           \* an unusable header is refused when the stream is asked for: no stream, no state
+    /\ iface = "asgi" /\ evs \in Scripts /\ clh \in CLs /\ clh.k # "unusable" /\ sent = <<>> /\ first \in BOOLEAN
+    /\ cl = (IF Usable(clh) THEN clh.v ELSE NIL)
     /\ (first => evs[1].t = "req")
     /\ body = ABody(evs, cl) /\ endIdx = AEndIdx(evs, cl)
     /\ LET b0 == IF cl = NIL THEN BIG ELSE cl
@@ -200,36 +269,42 @@ InitAsgi ==
            /\ last = [Blank EXCEPT !.eof = EofOf(s.buf, s.budget), !.recv = s.recv,
                                    !.tell = IF TellFromZero THEN 0 ELSE Len(s.buf)]
     /\ rawPos = 0 /\ reach = 0 /\ out = <<>> /\ ret = 0 /\ closed = FALSE /\ exh = FALSE /\ blocked = FALSE
+    /\ it = FALSE /\ ab = FALSE /\ pterm = FALSE /\ pacc = 0
 
 Init == InitWsgi \/ InitAsgi
 
 Next == \/ \E n \in Sizes : WRead(n) \/ WReadLine(n) \/ WReadLines(n) \/ ARead(n)
         \/ WNext \/ WIterAll \/ WExhaust \/ WClose
-        \/ AReadAll \/ AIter \/ AExhaust \/ AClose
+        \/ AReadAll \/ AIter \/ AExhaust \/ AClose \/ AIterNext \/ AIterBreak
 
 Spec == Init /\ [][Next]_vars
 
 (* ------------------------------------------------------------------------------------------
    The property
    ------------------------------------------------------------------------------------------ *)
+Limit    == IF iface = "wsgi" THEN WCL(cl) ELSE cl
 EndKnown == IF iface = "wsgi" THEN Len(out) = WCL(cl)
-            ELSE recv >= endIdx \/ (cl # NIL /\ Len(out) = cl)
+            ELSE (recv >= endIdx /\ ~pterm) \/ (cl # NIL /\ Len(out) = cl)
 
 (* what was handed out (and what is buffered) is the body, in order, nothing lost, nothing foreign;
-   once end-of-stream is reported everything was handed out *)
-PrefixOfBody     == /\ IsPrefix(out \o buf, Body)
-                    /\ (Eof /\ ~closed) => out = Body
+   once end-of-stream is reported everything was handed out; never more than Content-Length bytes,
+   whatever the application did with its iterator *)
+PrefixOfBody     == /\ ~ab => IsPrefix(out \o buf, Body)
+                    /\ (Eof /\ ~closed /\ ~ab) => out = Body
+                    /\ Limit # NIL => Len(out) + Len(buf) <= Limit
 SizedReadBounded == (last.op \in {"read", "readline"} /\ last.n >= 0) => Len(last.res) <= last.n
 (* the server is never asked for anything behind Content-Length / behind the end of the body *)
 NeverAskBeyondCL == IF iface = "wsgi" THEN reach <= WCL(cl)
-                    ELSE recv <= Max(endIdx, IF first THEN 1 ELSE 0)
+                    ELSE ~ab => recv <= Max(endIdx, IF first THEN 1 ELSE 0)
 (* tell() is the number of bytes returned; eof is reported exactly when the end is known and reached *)
 IndicatorsAgree  == /\ (~exh => ret = Len(out))
                     /\ last.eof = EofOf(buf, budget)
                     /\ (iface = "asgi" => (last.tell = told /\ (~exh => told = ret)))
-                    /\ (EndKnown /\ out = Body) => Eof
+                    /\ (EndKnown /\ out = Body /\ ~ab) => Eof
 (* a disconnect ends the stream where it is; no call ever waits for an event that cannot come *)
-DisconnectEndsStream == /\ ~blocked
-                        /\ (iface = "asgi" /\ DiscSeen(evs, recv)) => budget = 0
-TypeOK == /\ budget >= 0 /\ ret <= Len(out) /\ rawPos <= Len(wire) /\ recv <= Len(evs)
+DisconnectEndsStream == ~ab => /\ ~blocked
+                               /\ (iface = "asgi" /\ DiscSeen(evs, recv) /\ ~pterm) => budget <= 0
+(* exhaust() leaves nothing behind: the declared body (or what there is of it) is consumed, eof is reported *)
+ExhaustEndsStream == (last.op = "exhaust" /\ last.err = "" /\ ~ab) => (Eof /\ out = Body)
+TypeOK == /\ ret <= Len(out) /\ rawPos <= Len(wire) /\ recv <= Len(evs) /\ (it => iface = "asgi")
 =============================================================================
